@@ -248,6 +248,7 @@ class Gen:
     def __init__(self, seed, profile=None):
         self.r = random.Random(seed)
         self.profile = profile or {}
+        self.coefs = [c for c in COEFS if c.denominator in (1, 2, 4)] if self.profile.get("dyadic_values") else COEFS
 
     def prob(self):
         return self.r.choice(PROBS)
@@ -398,17 +399,17 @@ class Gen:
         # linear in other numeric variables (higher ones only in programs without non-linear terms)
         for y in self.num:
             if y != x and r.random() < 0.3 and (self.linear_only or self.num.index(y) < i):
-                p = padd(p, [(r.choice(COEFS), V(y))])
+                p = padd(p, [(r.choice(self.coefs), V(y))])
         # finite variables, possibly multiplied with lower numeric ones
         for f in self.fin:
             if r.random() < 0.4:
-                t = [(r.choice(COEFS), V(f))]
+                t = [(r.choice(self.coefs), V(f))]
                 if r.random() < 0.3:
                     t = pmul(t, [(F(1), V(f))])
                 p = padd(p, t)
         if allow_nonlinear and not self.linear_only and i > 0 and r.random() < 0.4:
             y = self.num[r.randrange(i)]
-            t = [(r.choice(COEFS), V(y, r.choice([1, 2, 2])))]
+            t = [(r.choice(self.coefs), V(y, r.choice([1, 2, 2])))]
             if r.random() < 0.4:
                 t = pmul(t, [(F(1), V(r.choice(self.fin)))])
             p = padd(p, t)
@@ -519,3 +520,117 @@ def horizon(T, limit=4000, lo=3, hi=8):
     while n < hi and b ** (n + 1) <= limit:
         n += 1
     return n, b
+
+
+# ------------------------------------------------------------------------------------------------
+# meaning-preserving spellings of the same abstract program (C19)
+
+def desugar_simul(stmts, counter=None):
+    """simultaneous assignments rewritten with explicit temporaries (new variables tq0, tq1, ...)"""
+    counter = counter if counter is not None else [0]
+    out = []
+    for s in stmts:
+        if s[0] == "simul":
+            first, second = [], []
+            for it in s[1]:
+                t = f"tq{counter[0]}"
+                counter[0] += 1
+                first.append((it[0], t) + tuple(it[2:4]) + (t,))
+                second.append(("assign", it[1], [(F(1), [(F(1), V(t))])], ("true",), it[1]))
+            out += first + second
+        elif s[0] == "if":
+            out.append(("if", s[1], [desugar_simul(b, counter) for b in s[2]], desugar_simul(s[3], counter)))
+        else:
+            out.append(s)
+    return out
+
+
+def nest_elifs(stmts):
+    """if c1: A elif c2: B else: C end   ->   if c1: A else: if c2: B else: C end end"""
+    out = []
+    for s in stmts:
+        if s[0] == "if":
+            conds, branches, el = s[1], [nest_elifs(b) for b in s[2]], nest_elifs(s[3])
+            node_else = el
+            for c, b in reversed(list(zip(conds[1:], branches[1:]))):
+                node_else = [("if", [c], [b], node_else)]
+            out.append(("if", [conds[0]], [branches[0]], node_else))
+        elif s[0] == "simul":
+            out.append(s)
+        else:
+            out.append(s)
+    return out
+
+
+def noisy(text, rng):
+    """whitespace, comments and blank lines"""
+    lines = []
+    for line in text.splitlines():
+        ind = len(line) - len(line.lstrip())
+        body = line.strip()
+        if rng.random() < 0.3:
+            lines.append("")
+        if rng.random() < 0.2:
+            lines.append(" " * ind + "# a comment line")
+        body = body.replace(" = ", rng.choice([" = ", "=", "  =   "]), 1) if "==" not in body else body
+        body = body.replace(" + ", rng.choice([" + ", "+", "  +  "]))
+        if rng.random() < 0.3:
+            body += "   # trailing comment"
+        lines.append(" " * ind + body + (" " if rng.random() < 0.3 else ""))
+    return "\n".join(lines) + "\n\n"
+
+
+def rpoly_parens(p, rng):
+    """fully parenthesised rendering of a polynomial"""
+    if not p:
+        return "0"
+    terms = []
+    for c, m in p:
+        cs = rnum(c)
+        if c < 0 or "/" in cs:
+            cs = f"({cs})"
+        t = cs
+        for v, e in m:
+            f = f"({v})" if rng.random() < 0.5 else v
+            if e != 1:
+                f = f"({f}**{e})"
+            t = f"({t}*{f})"
+        terms.append(t)
+    out = terms[0]
+    for t in terms[1:]:
+        out = f"({out} + {t})"
+    return out
+
+
+def render_variant(T, kind, rng, types=None):
+    """source text of template T in one of the spellings; T itself stays the ground truth"""
+    Tt = to_text_template(T)
+    if kind == "plain":
+        return render(Tt, types=types)
+    if kind == "decimal":
+        return render(Tt, style=1, types=types)
+    if kind == "explicit_last":
+        return render(Tt, explicit_last=True, types=types)
+    if kind == "noisy":
+        return noisy(render(Tt, types=types), rng)
+    if kind == "temporaries":
+        Q = dict(Tt)
+        Q["init"] = desugar_simul(Tt["init"])
+        Q["body"] = desugar_simul(Tt["body"])
+        return render(Q, types=types)
+    if kind == "nested_else":
+        Q = dict(Tt)
+        Q["body"] = nest_elifs(Tt["body"])
+        return render(Q, types=types)
+    if kind == "parens":
+        global rpoly
+        saved = rpoly
+        try:
+            rpoly = lambda p, style=0, sym=None: rpoly_parens(p, rng)   # noqa: E731
+            return render(Tt, types=types)
+        finally:
+            rpoly = saved
+    raise ValueError(kind)
+
+
+VARIANT_KINDS = ["plain", "decimal", "explicit_last", "noisy", "temporaries", "nested_else", "parens"]
